@@ -295,9 +295,13 @@ impl Axecutor {
                 );
             }
 
-            // If the argument is 0, we just return the current brk_start
-            if brk == 0 {
-                ax.reg_write_64(RAX, ax.state.syscalls.brk_start)?;
+            // If the argument is 0 (or otherwise below the start of the brk area, which cannot be a valid
+            // break), we just return the current program break without changing anything
+            if brk < ax.state.syscalls.brk_start {
+                ax.reg_write_64(
+                    RAX,
+                    ax.state.syscalls.brk_start + ax.state.syscalls.brk_length,
+                )?;
                 return Ok(HookResult::Handled);
             }
 
